@@ -17,15 +17,17 @@ type Driver struct {
 	Clock   *int64 // the store's clock (ns); tick advances it
 	handles map[string]string
 	reverse map[string]string
+	bases   map[string]int
 }
 
 func NewDriver(st queue.Store, clock *int64) *Driver {
-	return &Driver{Store: st, Clock: clock, handles: map[string]string{}, reverse: map[string]string{}}
+	return &Driver{Store: st, Clock: clock, handles: map[string]string{}, reverse: map[string]string{}, bases: map[string]int{}}
 }
 
 func (d *Driver) Reset() {
 	d.handles = map[string]string{}
 	d.reverse = map[string]string{}
+	d.bases = map[string]int{}
 }
 
 func T(ns int64) time.Time {
@@ -141,13 +143,12 @@ func (d *Driver) Do(op Op) *Obs {
 		set(err)
 		for _, e := range resp.Items {
 			m := FromEnvelope(e)
-			h := fmt.Sprintf("%s#%d", e.ID, e.Attempt)
+			base := fmt.Sprintf("%s#%d", e.ID, e.Attempt)
+			h := HandleName(base, d.bases[base])
 			if _, used := d.reverse[e.LeaseID]; used || e.LeaseID == "" {
 				h = "REUSED:" + e.LeaseID // a lease id that is not fresh can never match the model's expectation
 			} else {
-				if _, dup := d.handles[h]; dup {
-					h = h + "'" // same message, same attempt, new lease id: not a legal grant either
-				}
+				d.bases[base]++
 				d.handles[h] = e.LeaseID
 				d.reverse[e.LeaseID] = h
 			}
